@@ -92,6 +92,9 @@ func getDecoder(packet []byte, state *stateDecode) (*decoder, []byte, error) {
 			return nil, nil, err
 		}
 		packet = packet[n:]
+		if arrayMinLength(dec.Type) > uint64(len(packet)) {
+			return nil, nil, errDecodeEOD
+		}
 		return dec, packet, nil
 
 	case edtNil:
@@ -171,6 +174,7 @@ func decodeType(fold []byte, state *stateDecode) (*decoder, []byte, error) {
 		}
 
 		vtype := reflect.MapOf(decKey.Type, decValue.Type)
+		min := arrayMinLength(decKey.Type) + arrayMinLength(decValue.Type)
 
 		fdec := func(value *reflect.Value, packet []byte, state *stateDecode) (*reflect.Value, []byte, error) {
 			if len(packet) == 0 {
@@ -204,7 +208,7 @@ func decodeType(fold []byte, state *stateDecode) (*decoder, []byte, error) {
 				return value, packet, nil
 			}
 
-			if n > len(packet) {
+			if n > len(packet) || uint64(n)*min > uint64(len(packet)) {
 				return nil, nil, fmt.Errorf("incorrect data length")
 			}
 
@@ -264,6 +268,7 @@ func decodeType(fold []byte, state *stateDecode) (*decoder, []byte, error) {
 		}
 
 		vtype := reflect.SliceOf(decItem.Type)
+		min := arrayMinLength(decItem.Type)
 
 		fdec := func(value *reflect.Value, packet []byte, state *stateDecode) (*reflect.Value, []byte, error) {
 			if len(packet) == 0 {
@@ -297,7 +302,7 @@ func decodeType(fold []byte, state *stateDecode) (*decoder, []byte, error) {
 				return value, packet, nil
 			}
 
-			if n > len(packet) {
+			if n > len(packet) || uint64(n)*min > uint64(len(packet)) {
 				return nil, nil, fmt.Errorf("incorrect data length")
 			}
 
@@ -352,6 +357,17 @@ func decodeType(fold []byte, state *stateDecode) (*decoder, []byte, error) {
 			return nil, nil, fmt.Errorf("extra data in folded type (array): %#v", f)
 		}
 
+		// the length of an array comes with its type: it is checked against
+		// the data before the array is allocated
+		min := arrayMinLength(decItem.Type)
+		if min == 0 && decItem.Type.Size() > 0 {
+			min = 1
+		}
+		min *= uint64(n)
+		if min > math.MaxUint32 {
+			return nil, nil, fmt.Errorf("array length %d exceeds the limit", n)
+		}
+
 		vtype := reflect.ArrayOf(n, decItem.Type)
 
 		fdec := func(value *reflect.Value, packet []byte, state *stateDecode) (*reflect.Value, []byte, error) {
@@ -359,6 +375,10 @@ func decodeType(fold []byte, state *stateDecode) (*decoder, []byte, error) {
 				if n == 0 {
 					return value, packet, nil
 				}
+				return nil, nil, errDecodeEOD
+			}
+
+			if min > uint64(len(packet)) {
 				return nil, nil, errDecodeEOD
 			}
 
@@ -403,6 +423,20 @@ func decodeType(fold []byte, state *stateDecode) (*decoder, []byte, error) {
 		return v.(*decoder), fold[1:], nil
 	}
 	return nil, nil, fmt.Errorf("no decoder for type %d", fold[0])
+}
+
+// arrayMinLength returns the least number of bytes the items of an array type
+// occupy in the encoded data (an item that occupies memory takes at least one
+// byte), 0 for any other type.
+func arrayMinLength(t reflect.Type) uint64 {
+	if t.Kind() != reflect.Array {
+		return 0
+	}
+	item := arrayMinLength(t.Elem())
+	if item == 0 && t.Elem().Size() > 0 {
+		item = 1
+	}
+	return item * uint64(t.Len())
 }
 
 func decodePID(value *reflect.Value, packet []byte, state *stateDecode) (*reflect.Value, []byte, error) {
